@@ -479,6 +479,39 @@ def _run_task(args):
     return r
 
 
+def kwcall(fn, *values):
+    """A thunk calling fn(name0=values[0], name1=values[1], ...) with the parameter names read from the function's own
+    signature (a renamed parameter is followed); None if the signature has no named positional parameters
+    (a *args wrapper, a C function)."""
+    import inspect
+    try:
+        ps = [p for p in inspect.signature(fn).parameters.values()
+              if p.kind in (p.POSITIONAL_OR_KEYWORD, p.KEYWORD_ONLY)]
+    except (TypeError, ValueError):
+        return None
+    if len(ps) < len(values):
+        return None
+    return lambda: fn(**{p.name: v for p, v in zip(ps, values)})
+
+
+def same_by_name(ctx, sub, case, fn, args, positional_result, what):
+    """The calling convention is not an input: fn(*args) and fn(**names) must agree (value or exception type)."""
+    k = kwcall(fn, *args)
+    if k is None:
+        return
+    try:
+        got = k()
+    except Exception as e:  # noqa
+        got = ("raised", type(e).__name__)
+    if isinstance(positional_result, BaseException):
+        positional_result = ("raised", type(positional_result).__name__)
+    if isinstance(got, (bytearray, list)):
+        got = type(positional_result)(got) if isinstance(positional_result, (bytes, tuple)) else got
+    ctx.check(got == positional_result, sub, "keyword_call", case,
+              f"{what} with its arguments passed by name gives {str(got)[:120]}, positionally {str(positional_result)[:120]}")
+    ctx.label("keyword_arguments")
+
+
 class Task:
     def __init__(self, name, fn, **kwargs):
         self.name, self.fn, self.kwargs = name, fn, kwargs
